@@ -194,7 +194,31 @@ class C20(Prop):
             # objects keep their value and hash across reads / operations performed on them
             from gen import misc as GM
             from packaging import requirements
-            kind = rng.choice(["Marker", "Marker", "Requirement", "Requirement", "Specifier", "SpecifierSet", "Version", "Tag", "Metadata"])
+            kind = rng.choice(["Marker", "Marker", "Requirement", "Requirement", "Specifier", "SpecifierSet", "Version", "Tag", "Metadata",
+                               "MetadataLazy", "MetadataLazy"])
+            if kind == "MetadataLazy":
+                # cached metadata attributes: every read of an attribute gives the same outcome (value or the same error),
+                # however often and in whatever order attributes are read
+                from gen import misc as GM2
+                raw = GM2.raw_metadata(rng)
+                raw.pop("bogus", None)
+                try:
+                    m = metadata.Metadata.from_raw(dict(raw), validate=False)
+                except Exception:  # noqa: BLE001
+                    raise ValueError("outside the law's domain")
+                attrs = ["name", "version", "metadata_version", "summary", "requires_python", "requires_dist", "provides_extra", "dynamic",
+                         "license_expression", "license_files", "description_content_type", "keywords", "project_urls"]
+                order = [rng.choice(attrs) for _ in range(rng.randrange(6, 20))]
+                seen = {}
+                for a in order:
+                    try:
+                        out = ("value", repr(getattr(m, a)))
+                    except Exception as e:  # noqa: BLE001
+                        out = ("raise", type(e).__name__, getattr(e, "field", None), str(e)[:120])
+                    if a in seen and seen[a] != out:
+                        return False, f"Metadata.from_raw({raw!r}, validate=False).{a}: first read {seen[a]}, later read {out}"
+                    seen.setdefault(a, out)
+                return True, ""
             if kind == "Marker":
                 text = GM.marker(rng, 3); mk = lambda: markers.Marker(text)
             elif kind == "Requirement":
